@@ -330,7 +330,8 @@ def materialise(plan, root, fragment=None, twin=False):
             f.write(text)
 
 
-ENTRIES = ["abs-path", "rel-path", "url", "url1", "file-abs", "file-rel"]
+ENTRIES = ["abs-path", "rel-path", "rel-dot", "rel-updown", "url", "url1",
+           "file-abs", "file-rel"]
 
 
 def _enter(entry, full, loader_url, loader_file):
@@ -338,6 +339,13 @@ def _enter(entry, full, loader_url, loader_file):
         return loader_url(full)
     if entry == "rel-path":
         return loader_url(os.path.relpath(full))
+    if entry == "rel-dot":
+        return loader_url("./" + os.path.relpath(full))
+    if entry == "rel-updown":
+        # a redundant detour through the parent of the current directory
+        here = os.path.basename(os.getcwd())
+        rel = os.path.relpath(full)
+        return loader_url(os.path.join("..", here, rel) if here else rel)
     if entry == "url":
         return loader_url("file://" + pathname2url(full))
     if entry == "url1":
